@@ -247,6 +247,14 @@ def skeleton(stmts):
 C_FN = {"exp": "exp", "log": "log", "sqrt": "sqrt", "sin": "sin", "cos": "cos", "tan": "tan", "asin": "asin",
         "acos": "acos", "atan": "atan", "fabs": "abs", "floor": "floor"}
 
+_ONE, _TWO, _TEN = ("num", 1, 0), ("num", 2, 0), ("num", 1, 1)
+C_CONSTANTS = {
+    "M_PI": ("pi",), "M_E": ("fn", "exp", _ONE), "M_SQRT2": ("fn", "sqrt", _TWO), "M_SQRT1_2": ("div", _ONE, ("fn", "sqrt", _TWO)),
+    "M_PI_2": ("div", ("pi",), _TWO), "M_PI_4": ("div", ("pi",), ("num", 4, 0)), "M_1_PI": ("div", _ONE, ("pi",)), "M_2_PI": ("div", _TWO, ("pi",)),
+    "M_LN2": ("fn", "log", _TWO), "M_LN10": ("fn", "log", _TEN), "M_LOG2E": ("div", _ONE, ("fn", "log", _TWO)),
+    "M_LOG10E": ("div", _ONE, ("fn", "log", _TEN)), "M_2_SQRTPI": ("div", _TWO, ("fn", "sqrt", ("pi",))),
+}
+
 _C_TOK = re.compile(r"\s*(?:(\d+\.\d*(?:[eE][+-]?\d+)?[fFlL]?|\.\d+(?:[eE][+-]?\d+)?[fFlL]?|\d+[eE][+-]?\d+[fFlL]?)|(\d+)[uUlL]*|([A-Za-z_]\w*)|(\|\||&&|==|!=|<=|>=|[-+*/%()?:,<>!\[\]]))")
 
 
@@ -387,10 +395,8 @@ class CParser:
                 idx = self.eat("int")
                 self.eat("op", "]")
                 return ("idx", name, int(idx[1]))
-            if name == "M_PI":
-                return ("pi",)
-            if name == "M_E":
-                return ("fn", "exp", ("num", 1, 0))
+            if name in C_CONSTANTS:
+                return C_CONSTANTS[name]
             return ("var", name)
         raise Untranslatable(f"C primary {t}")
 
